@@ -383,6 +383,8 @@ class Sym:
                 self.stmt(n.get("then"), env)
             elif c is False:
                 self.stmt(n.get("else"), env)
+            elif n.get("else") is None and any(x.get("noret") for x in A.walk(n.get("then"))):
+                return      # argument / validity check on symbolic data: evaluate the world in which it passes
             else:
                 raise Unsupported("symbolic branch condition at line %s" % n.get("ln"))
             return
@@ -701,7 +703,7 @@ class Sym:
                 return Mat.top(dim[0], dim[1]) if dim else TOP
             if dim and len(args) == dim[0] * dim[1] and (dim[0] == 1 or dim[1] == 1):
                 m = Mat(dim[0], dim[1])
-                m.cells = [self.ev(a, env) for a in args]
+                m.cells = [scalarize(self.ev(a, env)) for a in args]
                 return m
             return Mat.top(dim[0], dim[1]) if dim else TOP
         o = self.ev(obj, env) if obj is not None else None
@@ -765,6 +767,8 @@ class Sym:
         v = self.view_of(o)
         if name in ("noalias", "derived", "const_cast_derived", "eval", "matrix", "array", "cast", "template cast"):
             return o
+        if name == "coeffs" and cls.startswith("Eigen::Quaternion"):
+            return o       # a quaternion's coefficient vector (x, y, z, w) is the quaternion's storage
         if name == "finished":
             return o.view.mat() if isinstance(o, Comma) else TOP
         if name == "data" and v is not None:
